@@ -446,7 +446,9 @@ def _replay_sph_reads(case, seed):
 
 BAD_NAMES = ["", "sig", "sig.", "sig.txt", "sig.bin", "sig.raw", "sig.dat", "sig.npy.bak", "sig.wav.gz",
              "sig.sph.tmp", ".hidden", "sigwav", "signpy", "d.wav/sig", "d.npy/sig.x", "sig.hdf5~",
-             "sig.pt.1", "sig wav", "sig.n", "sig.np", "sig.hdf", "sig.h5"]
+             "sig.pt.1", "sig wav", "sig.n", "sig.np", "sig.hdf", "sig.h5",
+             # words that force_as accepts but that are not suffixes
+             "sig.file", "sig.soundfile", "sig.table", "sig.kaldi"]
 BAD_FORCE = ["", " ", "numpy", "WAV", "Npy", "sphere", "txt", "h5", "torch", "unknown", "npy ", " wav",
              ".wav", ".npy", "pickle", "none", "None"]
 
@@ -835,6 +837,283 @@ def _wds_points(tier, seed):
     return pts, fams
 
 
+# ------------------------------------------------------------------ call histories, results held
+
+# Every container of the property with two files (variants a / b) of the same shape and stored dtype but
+# other values; 12 values in each file and int16 wherever the container allows it, so that any state
+# keyed by size / dtype / container / file name is shared by some pair of calls.
+HIST_SHAPES = {"raw": (12,), "npy": (12,), "npz": (12,), "pt": (12,), "hdf5": (12,)}      # audio: (6, 2)
+HIST_STORED = {"wav32": "int32", "raw": "float64"}                                         # others: int16
+HIST_VARIANTS = ("a", "b")
+HIST_DTYPES = (None, "float64")
+# force_as words that are NOT file-name suffixes: an existing, decodable file called take1.<word> has
+# "no recognised suffix" (IOError) whatever was called before
+HIST_KEYWORDS = {"file": "raw", "soundfile": "flac", "table": "npy", "kaldi": "npy"}
+HIST_ERRORS = [
+    ["bad_name", "sig.txt", True], ["bad_name", "nosuch.bin", False],
+    ["stream_no_force", "npy", "bytesio"], ["stream_no_force", "wav16", "file"],
+    ["bad_force", "numpy", "path"], ["bad_force", "WAV", "bytesio"],
+] + [["keyword_name", k] for k in HIST_KEYWORDS]
+HIST_ERRORS_SHORT = [["bad_name", "sig.txt", True], ["stream_no_force", "npy", "bytesio"],
+                     ["bad_force", "numpy", "path"], ["keyword_name", "file"], ["keyword_name", "soundfile"]]
+HIST_PLAN = {"quick": (("full", 2), ("short", 3)), "thorough": (("full", 2), ("mid", 3))}
+
+
+def _hist_accesses(container, which):
+    suffix, forces, _, _, streams = CONTAINERS[container]
+    if suffix is None:                                   # raw binary: force_as='file' is the only way in
+        acc = [["path", forces[0]], [streams[0], forces[0]]]
+    else:
+        acc = [["path", None], ["bytesio", forces[0]]]
+    return acc[:1] if which == "short" else acc
+
+
+def _hist_calls(alphabet):
+    """full : container x variant {a,b} x access {path (suffix-inferred), BytesIO + force_as} x requested
+              dtype {None, float64}, and every error call
+       mid  : the same with dtype None only
+       short: container x variant {a,b} x path x dtype None, and one call per documented error case plus
+              the two keyword-named files that decode if mistaken for a suffix"""
+    out = []
+    for c in CONTAINERS:
+        for v in HIST_VARIANTS:
+            for acc, force in _hist_accesses(c, alphabet):
+                for dt in (HIST_DTYPES if alphabet == "full" else HIST_DTYPES[:1]):
+                    out.append(["read", c, v, acc, force, dt])
+    return out + (HIST_ERRORS_SHORT if alphabet == "short" else HIST_ERRORS)
+
+
+def _hist_arrays(container, seed):
+    shape = HIST_SHAPES.get(container, (6, 2))
+    dtype = HIST_STORED.get(container, "int16")
+    k = list(CONTAINERS).index(container)
+    return {v: _values(seed, shape, dtype, offset=50 + 2 * k + i, full_range=(container == "wav32"))
+            for i, v in enumerate(HIST_VARIANTS)}
+
+
+def _hist_write(tmp, seed):
+    """every file any call of the alphabet may name (the containers' own writers; the library under test
+    is not called)"""
+    other = _values(seed, (3,), "int16", offset=1)
+    for c in CONTAINERS:
+        arrs = _hist_arrays(c, seed)
+        for v in HIST_VARIANTS:
+            _write(c, _layouts(c)[0][0], arrs[v], other, other, _hist_path(tmp, c, v))
+    for word, c in HIST_KEYWORDS.items():
+        shutil.copyfile(_hist_path(tmp, c, "a"), os.path.join(tmp, "take1." + word))
+    shutil.copyfile(_hist_path(tmp, "npy", "a"), os.path.join(tmp, "sig.txt"))
+
+
+def _hist_path(tmp, container, variant):
+    return os.path.join(tmp, "%s_%s%s" % (container, variant, CONTAINERS[container][0] or ".f64"))
+
+
+def _hist_perform(call, tmp):
+    """-> outcome of one call of the alphabet: ("ok", value) | ("exc", exception)"""
+    from pydrobert.speech import util
+
+    kind = call[0]
+    if kind == "read":
+        _, c, v, access, force, dt = call
+        p = _hist_path(tmp, c, v)
+        return _read(p, p, access, force, dt, None)
+    if kind == "bad_name":
+        return _call(lambda: util.read_signal(os.path.join(tmp, call[1])))
+    if kind == "keyword_name":
+        return _call(lambda: util.read_signal(os.path.join(tmp, "take1." + call[1])))
+    if kind == "stream_no_force":
+        p = _hist_path(tmp, call[1], "a")
+        if call[2] == "file":
+            with open(p, "rb") as f:
+                return _call(lambda: util.read_signal(f))
+        with open(p, "rb") as f:
+            b = io.BytesIO(f.read())
+        return _call(lambda: util.read_signal(b))
+    if kind == "bad_force":
+        p = _hist_path(tmp, "npy", "a")
+        if call[2] == "path":
+            return _call(lambda: util.read_signal(p, force_as=call[1]))
+        with open(p, "rb") as f:
+            b = io.BytesIO(f.read())
+        return _call(lambda: util.read_signal(b, force_as=call[1]))
+    raise core.HarnessError("call %r" % (call,))
+
+
+def _hist_expect(call, seed):
+    """what the property demands of the call, whatever was called before:
+    ("array", stored.astype(requested)) | ("raises", exception class, its name)"""
+    kind = call[0]
+    if kind == "read":
+        a = _hist_arrays(call[1], seed)[call[2]]
+        return ("array", a if call[5] is None else a.astype(call[5]))
+    if kind in ("bad_name", "keyword_name"):
+        return ("raises", IOError, "IOError")
+    return ("raises", ValueError, "ValueError")
+
+
+def _config_state():
+    """pydrobert.speech.config: every module-level number, string and set (the documented switches)"""
+    from pydrobert.speech import config
+
+    out = {}
+    for name, v in vars(config).items():
+        if name.startswith("__"):
+            continue
+        if isinstance(v, (set, frozenset)):
+            out[name] = repr(sorted(map(repr, v)))
+        elif isinstance(v, (bool, int, float, str, bytes, tuple)):
+            out[name] = repr(v)
+    return out
+
+
+def _hist_relation(calls, want, i, j):
+    return dict(same_container=(calls[i][1] == calls[j][1]), same_file=(calls[i][1:3] == calls[j][1:3]),
+                same_value_count=(want[i].size == want[j].size),
+                same_result_dtype=(want[i].dtype == want[j].dtype))
+
+
+def _scribble(a):
+    """the caller owns a returned array: overwrite it with values no file holds"""
+    if not isinstance(a, np.ndarray) or not a.flags.writeable or not a.size:
+        return False
+    a[...] = 21 if a.dtype.kind in "iu" else 21.5
+    return True
+
+
+def _history_child(calls, seed, tmp):
+    """runs in a forked child (state 'just imported').  -> dict(viol=[[tags, detail]], obs=[...])"""
+    viol, obs = [], []
+    conf0 = _config_state()
+    expect = [_hist_expect(c, seed) for c in calls]
+    want = [e[1] if e[0] == "array" else None for e in expect]
+    kinds = [c[0] if c[0] != "read" else "read_ok" for c in calls]
+    held = []
+
+    def judge(j, r, phase):
+        """-> True when call j did what the property demands"""
+        call, exp = calls[j], expect[j]
+        where = "call %d of %r%s" % (j + 1, calls, "" if phase == "first" else
+                                     " (after the caller overwrote every array returned so far and the "
+                                     "sequence was repeated)")
+        base = dict(what="history_call_differs", kind=kinds[j], phase=phase, first_call=(j == 0))
+        if call[0] == "read":
+            base.update(container=call[1], stream=(call[3] != "path"), cast=(call[5] is not None))
+        if exp[0] == "raises":
+            if r[0] == "ok":
+                viol.append([dict(base, outcome="returned"), "%s returned %s instead of raising %s" % (
+                    where, type(r[1]).__name__, exp[2])])
+                return False
+            if not isinstance(r[1], exp[1]):
+                viol.append([dict(base, outcome="wrong_exception", exc=type(r[1]).__name__),
+                             "%s raised %s (%s) instead of %s" % (where, type(r[1]).__name__,
+                                                                   _clean(r[1]), exp[2])])
+                return False
+            return True
+        if r[0] == "exc":
+            viol.append([dict(base, outcome="raised", exc=type(r[1]).__name__),
+                         "%s raised %s: %s" % (where, type(r[1]).__name__, _clean(r[1]))])
+            return False
+        got, w = r[1], exp[1]
+        if not isinstance(got, np.ndarray):
+            viol.append([dict(base, outcome="type"), "%s returned a %s" % (where, type(got).__name__)])
+            return False
+        if got.shape != w.shape:
+            p = ("shape", "shape %r, stored %r" % (got.shape, w.shape))
+        elif got.dtype != w.dtype:
+            p = ("dtype", "dtype %s, expected %s" % (got.dtype, w.dtype))
+        elif not np.array_equal(got, w):
+            bad = np.argwhere(got != w)
+            p = ("values", "%d of %d values differ, first at %r: got %r, stored %r" % (
+                len(bad), w.size, bad[0].tolist(), got[tuple(bad[0])].item(), w[tuple(bad[0])].item()))
+        else:
+            return True
+        viol.append([dict(base, outcome=p[0]), "%s: %s" % (where, p[1])])
+        return False
+
+    for phase in ("first", "repeat"):
+        if phase == "repeat":
+            if viol or not any([_scribble(h[0]) for h in held]):
+                break               # a history that already failed is not repeated
+            held = []
+        for j in range(len(calls)):
+            r = _hist_perform(calls[j], tmp)
+            good = judge(j, r, phase)
+            obs.append(kinds[j] + (":ok" if good else ":differs"))
+            got = r[1] if r[0] == "ok" and isinstance(r[1], np.ndarray) and want[j] is not None else None
+            held.append((got, None if got is None else got.copy(), good))
+            for i in range(j):
+                a, cp, ok = held[i]
+                if ok and a is not None and not (a.shape == cp.shape and np.array_equal(a, cp)):
+                    held[i] = (a, cp, False)          # reported once
+                    viol.append([dict(_hist_relation(calls, want, i, j) if want[j] is not None else {},
+                                      what="held_result_overwritten", phase=phase, container=calls[i][1],
+                                      by=kinds[j]),
+                                 "the array returned by call %d of %r (held by the caller) changed while call "
+                                 "%d ran" % (i + 1, calls, j + 1)])
+            now = _config_state()
+            changed = sorted(k for k in set(conf0) | set(now) if now.get(k) != conf0.get(k))
+            if changed:
+                viol.append([dict(what="config_changed", names=changed, by=kinds[j]),
+                             "call %d of %r changed pydrobert.speech.config.%s: %s -> %s" % (
+                                 j + 1, calls, changed[0], conf0.get(changed[0]), now.get(changed[0]))])
+                conf0 = now
+        for i in range(len(held)):
+            for j in range(i + 1, len(held)):
+                a, b = held[i][0], held[j][0]
+                if a is not None and b is not None and a.size and b.size and np.shares_memory(a, b):
+                    viol.append([dict(_hist_relation(calls, want, i, j), what="results_share_memory",
+                                      phase=phase, container=calls[i][1]),
+                                 "the arrays returned by calls %d and %d of %r share memory" % (
+                                     i + 1, j + 1, calls)])
+    return dict(viol=viol, obs=obs)
+
+
+def _hist_seqs(alphabet, depth, first):
+    """every sequence of 1..depth calls over the alphabet that starts with call number `first`"""
+    import itertools
+
+    calls = _hist_calls(alphabet)
+    return [[calls[first]] + [calls[k] for k in rest]
+            for n in range(depth) for rest in itertools.product(range(len(calls)), repeat=n)]
+
+
+def _hist_setup(seed, tmp):
+    """files of the alphabet on disk; -> child(seq) for mc.crash.explore_histories.  The parent imports
+    the library (and the readers' libraries) and never calls it."""
+    import h5py  # noqa: F401
+    import soundfile  # noqa: F401
+    import torch  # noqa: F401
+    from pydrobert.speech import _sphere, config, util  # noqa: F401
+
+    _hist_write(tmp, seed)
+    return lambda seq: _history_child([list(c) for c in seq], seed, tmp)
+
+
+def _histories(pt, seed):
+    """pt = (alphabet, depth, index of the first call): every history of 1..depth calls that starts with
+    that call; one forked child per point (see mc.crash.explore_histories)"""
+    from .. import crash
+
+    alphabet, depth, first = pt
+    seqs = _hist_seqs(alphabet, depth, first)
+    with _Tmp() as tmp:
+        viol, results, forks = crash.explore_histories(
+            seqs, _hist_setup(seed, tmp), dict(alphabet=alphabet, depth=depth, first=first))
+    obs = sorted(set(o for r in results for o in r["obs"]))
+    return core.result(viol, evals=len(seqs), nontrivial_count=sum(len(s) > 1 for s in seqs),
+                       obs=[seqs[0][0][:2]] + obs, impl_calls=forks,
+                       sample=dict(alphabet=alphabet, depth=depth, first_call=seqs[0][0],
+                                   inner="every continuation of 0..%d further calls" % (depth - 1)))
+
+
+def _replay_history(case, seed):
+    from .. import crash
+
+    with _Tmp() as tmp:
+        return core.result(crash.replay_history(
+            case, lambda c: _hist_seqs(c["alphabet"], c["depth"], c["first"]), _hist_setup(seed, tmp)))
+
+
 # ------------------------------------------------------------------ registration
 
 
@@ -846,6 +1125,8 @@ def _replay(case, seed):
         return _replay_sph_reads(case, seed)
     if k == "wds":
         return _replay_wds(case, seed)
+    if k in ("history", "history_run"):
+        return _replay_history(case, seed)
     return _replay_error(case, seed)
 
 
@@ -855,7 +1136,33 @@ def subchecks(tier, seed):
     sr = [(c, ch, n) for c in ("sph01", "sph10") for ch in SPH_CHANNELS for n in _sph_counts(ch, kmax)]
     wds_pts, fams = _wds_points(tier, seed)
     sizes = {n: len(v[1]) for n, v in _seed_files(seed).items()}
+    hist = [(alph, depth, i) for alph, depth in HIST_PLAN[tier] for i in range(len(_hist_calls(alph)))]
     return [
+        # first in the list: its children must start from the state "just imported" also when every
+        # sub-check runs in one process (VERIF_NPROC=1)
+        core.SubCheck(
+            "histories", hist, lambda p: _histories(p, seed),
+            "call histories in ONE interpreter, every result HELD by the caller.  Alphabet of calls: a "
+            "successful read of every container (two files a / b of equal shape and dtype, 12 values each) x "
+            "access {suffix-inferred path, BytesIO + force_as; raw binary: path / open file + "
+            "force_as='file'} x requested dtype {None, float64}; every documented error case (existing / "
+            "missing name without a recognised suffix, BytesIO / open file without force_as, unknown "
+            "force_as with a path / a BytesIO); existing decodable files named take1.<w> for every force_as "
+            "word w that is not a suffix (file, soundfile, table, kaldi => IOError).  %s; the histories of a point "
+            "run one after the other in one forked child (state at its start: 'just imported'), the first violation "
+            "of every signature is confirmed by running its history alone in a fresh child.  After every call: its outcome is what the "
+            "property demands of that call alone (stored array / exception class), every array returned "
+            "earlier still equals what it was when returned, pydrobert.speech.config is unchanged; after "
+            "the last call no two returned arrays share memory; then the caller overwrites every returned "
+            "array and the sequence is repeated with the same demands; non-trivial = more than one call" % (
+                "; ".join("every sequence of 1..%d calls over the %s alphabet (%d calls)" % (
+                    d, a, len(_hist_calls(a))) for a, d in HIST_PLAN[tier])),
+            axes=dict(containers=list(CONTAINERS), variants=list(HIST_VARIANTS), dtypes=list(HIST_DTYPES),
+                      error_calls=HIST_ERRORS, error_calls_short=HIST_ERRORS_SHORT,
+                      keyword_named_files=HIST_KEYWORDS,
+                      alphabets={a: len(_hist_calls(a)) for a, _ in HIST_PLAN[tier]},
+                      depth={a: d for a, d in HIST_PLAN[tier]}),
+            replay=lambda case: _replay(case, seed), kind="histories"),
         core.SubCheck(
             "roundtrip", rt, lambda p: _roundtrip(p, seed),
             "per point (container, shape, stored dtype) the file is written by the container's own "
